@@ -599,6 +599,8 @@ callback_readdata(void * cookie, int status)
 	struct http_cookie * H = cookie;
 	uint8_t * buf;
 	size_t buflen;
+	size_t bodylen;
+	size_t eollen;
 	size_t waitlen;
 
 	/*
@@ -615,8 +617,23 @@ callback_readdata(void * cookie, int status)
 	if (buflen > H->readlen)
 		buflen = H->readlen;
 
+	/*
+	 * If this is a chunk, the final 2 bytes of the read are the EOL which
+	 * follows the chunk data; those are not part of the body.
+	 */
+	bodylen = buflen;
+	if (H->chunked) {
+		if (H->readlen - buflen < 2)
+			eollen = 2 - (H->readlen - buflen);
+		else
+			eollen = 0;
+		if (eollen > buflen)
+			eollen = buflen;
+		bodylen = buflen - eollen;
+	}
+
 	/* Add this to our internal buffer. */
-	if (addbody(H, buf, buflen))
+	if (addbody(H, buf, bodylen))
 		return (die(H));
 
 	/* Consume the data. */
@@ -629,9 +646,6 @@ callback_readdata(void * cookie, int status)
 	if (H->readlen == 0) {
 		/* Was this just one chunk from a chunked encoding? */
 		if (H->chunked) {
-			/* Strip the trailing EOL. */
-			H->res.bodylen -= 2;
-
 			/* Get the next chunk. */
 			return (callback_chunkedheader(H, 0));
 		}
